@@ -72,6 +72,20 @@ def play_traces(chk, wvbin, wd, emit, games, plies, extra=None, corpus=CORPUS_FE
     return json.loads(out.strip().splitlines()[-1])
 
 
+def play_extreme(chk, wvbin, wd, emit, pid, quick):
+    """The same random play and the same validation from positions of unusual material (corpus/extreme.fen)."""
+    xf = os.path.join(CORPUS, "extreme.fen")
+    nx = sum(1 for l in open(xf) if l.strip() and not l.startswith("#"))
+    wv(wvbin, ["play", "--seed", chk.seed + 77, "--games", nx * (1 if quick else 6), "--plies", 10 if quick else 40, "--emit", emit, "--corpus", xf,
+               "--out-prefix", os.path.join(wd, "xplay")])
+    for kind in emit.split(","):
+        path = os.path.join(wd, "xplay.%s.ndjson" % kind)
+        if kind == "perform" or not os.path.exists(path):
+            continue
+        validate_stream(chk, path, pid, 4 if quick else NPROC, boundary="Reset" if kind == "move" else None, header="EvalConsts" if kind == "eval" else None)
+    chk.coverage["extreme_material_positions"] = nx
+
+
 def validate_stream(chk, path, pid, nshards, boundary=None, header=None, module="ChessTrace", deque=False):
     shards = shard(path, nshards, boundary=boundary, header=header)
     res = tlc_many([dict(module=module, trace=p, deque=deque) for p in shards])
@@ -197,6 +211,7 @@ def check_rules(pid, tier, seed):
     res = validate_stream(chk, os.path.join(wd, "play.move.ndjson"), pid, NPROC if quick else NPROC * 4, boundary="Reset")
     if pid == "C10":
         validate_stream(chk, os.path.join(wd, "play.attacks.ndjson"), pid, NPROC if quick else NPROC * 2)
+    play_extreme(chk, wvbin, wd, emit, pid, quick)
     n, sp, kinds, samples = special_counts(os.path.join(wd, "play.move.ndjson"))
     chk.coverage.update({"evaluations": info["visited"], "distinct_nontrivial": sp,
                          "rule": "positions visited by seeded random play from %s (move choice biased toward castling, en passant, promotion, rook captures); non-trivial = distinct positions whose legal moves include a castle, en-passant or promotion move or where the mover is in check" % os.path.basename(CORPUS_FEN),
@@ -389,6 +404,7 @@ def check_eval(pid, tier, seed):
     info = play_traces(chk, wvbin, wd, "eval", games, plies)
     validate_stream(chk, os.path.join(wd, "play.eval.ndjson"), pid, NPROC if quick else NPROC * 3, header="EvalConsts")
     n, nt, samples = eval_samples(os.path.join(wd, "play.eval.ndjson"), pid == "C05")
+    play_extreme(chk, wvbin, wd, "eval", pid, quick)
     # checkmates and stalemates of many shapes (pawn checks, several attackers, stalemates with pawns next to the king ...): one
     # "game" of one ply per position, so each is evaluated (with its mirror image) exactly like a position met in play
     tfens = os.path.join(CORPUS, "terminals.fen")
@@ -511,6 +527,7 @@ def check_fen(pid, tier, seed):
     games, plies = (40, 70) if quick else (800, 120)
     info = play_traces(chk, wvbin, wd, "fen", games, plies)
     validate_stream(chk, os.path.join(wd, "play.fen.ndjson"), pid, NPROC if quick else NPROC * 2)
+    play_extreme(chk, wvbin, wd, "fen", pid, quick)
     outs = textgen(chk, wd, "fen", None, NPROC, range(NPROC), "f")
     tot, samples = replay_text(chk, wvbin, wd, "fen", outs, pid, "f", ("text",))
     evs = read_events(os.path.join(wd, "play.fen.ndjson"))
